@@ -12,6 +12,8 @@ import Operon.Model.Tmpl
   tmpl <id> <name> <sequence>                               (create_template)
   reg <id> <name|-> <mrnaName|-> <sequence>                 (register_template(t, name=…): name, else the mRNA's own)
   put <id> <key> <mrnaName|-> <sequence>                    (instance.templates[key] = t)
+  strict <id> <0|1>                  (public attribute re-assigned: instance.strict = …)
+  filt <id> <set>                    (public attribute re-assigned: instance.filters = builtins + the set's own)
   render <id> <sequence>             (synthesize on that instance)
   translate <id> <name>
 -/
@@ -224,6 +226,14 @@ def step (st : DSt) (toks : List String) : DSt × String :=
     | some i =>
       if decodeCps n = [] then (st, "raise:ValueError")
       else (setInst st id { i with templates := putKey i.templates (decodeCps n) (decodeCps s) }, "ok")
+  | ["strict", id, b] =>
+    match getInst st id with
+    | none => (st, "bad-op")
+    | some i => (setInst st id { i with strict := boolOf b }, "ok")
+  | ["filt", id, fset] =>
+    match getInst st id with
+    | none => (st, "bad-op")
+    | some i => if st.fsets.any (fun p => p.1 == fset) then (setInst st id { i with fset := fset }, "ok") else (st, "bad-op")
   | ["render", id, s] =>
     match getInst st id with
     | none => (st, "bad-op")
